@@ -111,6 +111,58 @@ def rfcForbidden (lvl : Nat) (datagrams resetStreamAt ackFrequency : Bool) (b : 
       | _ => none
     else none
 
+/-- RFC 9000 §12.4, Table 3, column "Pkts" (I = Initial, H = Handshake, 0 = 0-RTT, 1 = 1-RTT), written
+    from the RFC and NOT derived from the code: may a frame of type `t` (0x00 … 0x1e) appear in a
+    packet of encryption level `lvl` (1 Initial, 2 Handshake, 3 0-RTT, 4 1-RTT)?
+    "An endpoint MUST treat receipt of a frame in a packet type that is not permitted as a
+    connection error of type PROTOCOL_VIOLATION." -/
+def rfcTable3 (t lvl : Nat) : Bool :=
+  let ih01 := lvl = 1 || lvl = 2 || lvl = 3 || lvl = 4
+  let ih_1 := lvl = 1 || lvl = 2 || lvl = 4
+  let __01 := lvl = 3 || lvl = 4
+  let ___1 := lvl = 4
+  if t = 0x00 ∨ t = 0x01 then ih01            -- PADDING, PING
+  else if t = 0x02 ∨ t = 0x03 then ih_1       -- ACK
+  else if t = 0x04 ∨ t = 0x05 then __01       -- RESET_STREAM, STOP_SENDING
+  else if t = 0x06 then ih_1                  -- CRYPTO
+  else if t = 0x07 then ___1                  -- NEW_TOKEN
+  else if 0x08 ≤ t ∧ t ≤ 0x0f then __01       -- STREAM
+  else if 0x10 ≤ t ∧ t ≤ 0x17 then __01       -- MAX_DATA … STREAMS_BLOCKED
+  else if t = 0x18 ∨ t = 0x19 then __01       -- NEW_CONNECTION_ID, RETIRE_CONNECTION_ID
+  else if t = 0x1a then __01                  -- PATH_CHALLENGE
+  else if t = 0x1b then ___1                  -- PATH_RESPONSE
+  else if t = 0x1c then ih01                  -- CONNECTION_CLOSE (transport)
+  else if t = 0x1d then __01                  -- CONNECTION_CLOSE (application)
+  else if t = 0x1e then ___1                  -- HANDSHAKE_DONE
+  else false
+
+/-- where the frame parser deliberately differs from Table 3 at the 0-RTT level (documented, upstream
+    quic-go behaviour; none of them lets a forbidden frame act on the connection):
+    * RETIRE_CONNECTION_ID (0x19) rejected — RFC 9000 §12.5 lists it among the frames a server MAY
+      treat as PROTOCOL_VIOLATION in 0-RTT packets;
+    * CONNECTION_CLOSE 0x1c rejected — stricter than Table 3 ("ih01");
+    * HANDSHAKE_DONE (0x1e) let through by the parser — only servers receive 0-RTT packets, and a
+      server treats every HANDSHAKE_DONE as PROTOCOL_VIOLATION in `handleHandshakeDoneFrame`. -/
+def encLevelDeviations : List (Nat × Nat) := [(0x19, 3), (0x1c, 3), (0x1e, 3)]
+
+/-- the accept/reject decision expected of `ParseType` for frame type `t` (0x01 … 0x1e) at `lvl` -/
+def encLevelExpected (t lvl : Nat) : Bool :=
+  if encLevelDeviations.contains (t, lvl) then !rfcTable3 t lvl else rfcTable3 t lvl
+
+/-- monitor `enc_level_rfc`: `rejected` = the implementation answered "not allowed at encryption
+    level" for the first frame of `b`. `some detail` when that contradicts `encLevelExpected`. -/
+def encLevelMismatch (lvl : Nat) (b : Bytes) (rejected : Bool) : Option String :=
+  match frameTypeOf (b.length + 1) b with
+  | some (t, _) =>
+    if 1 ≤ t ∧ t ≤ 0x1e ∧ 1 ≤ lvl ∧ lvl ≤ 4 then
+      if rejected ∧ encLevelExpected t lvl then
+        some s!"frame type {t} rejected at level {lvl} although RFC 9000 Table 3 permits it there"
+      else if !rejected ∧ !encLevelExpected t lvl then
+        some s!"frame type {t} accepted at level {lvl} although RFC 9000 Table 3 does not permit it there"
+      else none
+    else none
+  | none => none
+
 /-- `delay · 2^exp · 1000 ≥ 2^63`: the ACK Delay of the first frame of `b` cannot be represented in
     an int64 nanosecond count (classifier of the known finding `ack-delay-reencode`) -/
 def ackDelayOverflows (lvl exp : Nat) (b : Bytes) : Bool :=
@@ -136,6 +188,33 @@ def ackDelaySpecNs (lvl exp : Nat) (b : Bytes) : Option Nat :=
       | some ([_, delay], _) =>
         let e := if lvl = 4 then exp else 3
         if delay * 2 ^ e * 1000 < 2 ^ 63 then some (delay * 2 ^ e * 1000) else none
+      | _ => none
+    else none
+  | none => none
+
+/-- skip `count` (gap, range) pairs -/
+def skipAckBlocks : Nat → Bytes → Option Bytes
+  | 0, b => some b
+  | k + 1, b =>
+    match takeSpecN 2 b with
+    | some (_, b) => skipAckBlocks k b
+    | none => none
+
+/-- RFC 9000 §19.3: the ECN counts of the first frame of `b` if it is an ACK: none for type 0x02
+    (reported as 0,0,0), the three trailing varints for type 0x03 -/
+def ackEcnSpec (b : Bytes) : Option (Nat × Nat × Nat) :=
+  match frameTypeOf (b.length + 1) b with
+  | some (t, rest) =>
+    if t = 0x02 then some (0, 0, 0)
+    else if t = 0x03 then
+      match takeSpecN 4 rest with
+      | some ([_, _, count, _], r) =>
+        match skipAckBlocks count r with
+        | some r =>
+          match takeSpecN 3 r with
+          | some ([a, b, c], _) => some (a, b, c)
+          | _ => none
+        | none => none
       | _ => none
     else none
   | none => none
